@@ -211,7 +211,7 @@ func collectorRules(c *core.Ctx, s *Stage, col, w *Goroutine, vals, result *ir.T
 			}
 			recvs := p.Events(ir.KRecv)
 			m, _, args, isC := callParts(v)
-			good := isC && m == "Combine" && len(args) == 3 && ir.Same(args[1], sym) && len(recvs) == 1 && ir.Same(recvs[0].A[0], vals) && ir.Same(args[2], recvs[0].R)
+			good := isC && m == "Combine" && len(args) == 3 && ir.Same(args[1], sym) && len(recvs) == 1 && ir.Same(recvs[0].A[0], vals) && (ir.Same(args[2], recvs[0].R) || args[2].Op == "extract" && args[2].Aux == "0" && len(args[2].Args) == 1 && ir.Same(args[2].Args[0], recvs[0].R))
 			nComb := 0
 			for _, st := range p.Events(ir.KCall) {
 				if st.Method != nil && st.Method.Name() == "Combine" {
